@@ -15,6 +15,7 @@ func init() {
 }
 
 func runC06(r *engine.Run) {
+	r.Rule("WHO-valuestores", "the only fields of StateCache that can hold cached values are the key->versions map and the hash links: a second container (an overlay of the tip's writes) is a second source of answers with its own invalidation, through which a sibling fork's write reaches another fork")
 	r.Rule("AGREE-origin", "see C14: the origin tracker is written and read in the same field order: every value the cache stores or hands out is a clone made by Encode + CreateNode, so a writer that swaps origin and version makes a lookup return a node other than the one written (after an odd number of clone steps)")
 	r.Rule("DOM-nomapswap", "whenever a per-key versions map is (re)installed in the state cache's key->versions map, any freshly allocated map among its provenance is allocated only on the not-found edge of the lookup of that key: an existing map (holding other blocks' entries) is never replaced")
 	r.Rule("DOM-tombstone", "every Clone() of a cache entry's data that is handed out is reached only on paths where the same entry's deleted flag tested false (feasible-path enumeration with structural atom equality)")
@@ -63,6 +64,7 @@ func runC06(r *engine.Run) {
 	whoLayers(r)
 	cloneDeep(r)
 	agreeOrigin(r)
+	valueStores(r, "WHO-valuestores")
 }
 
 // lruCallOnField matches c = (*lru.Cache).<method>(load of <recvType>.<field>, ...).
